@@ -319,7 +319,7 @@ def check(tier, seed, t0):
     merged = common.merge(results)
     c = merged["counters"]
     k = 1 if not th else 10
-    guards = [("sets", c.get("sets", 0), 400 * k), ("sets reported 200", c.get("sets_ok", 0), 300 * k), ("value comparisons after read-back", c.get("value_comparisons", 0), 3000 * k),
+    guards = [("sets", c.get("sets", 0), 300 * k), ("sets reported 200", c.get("sets_ok", 0), 300 * k), ("value comparisons after read-back", c.get("value_comparisons", 0), 3000 * k),
               ("restarts", c.get("restarts", 0), 12), ("removes", c.get("removes", 0), 50 * k), ("PROPPATCH requests setting several properties", c.get("multi_sets", 0), 80 * k)]
     for f in ("percent", "hash", "backslash", "dquote", "bracket", "equals", "colon", "nonascii", "plain"):
         guards.append(("successful sets with feature " + f, c.get("sets_ok:" + f, 0), 3))
